@@ -1,9 +1,10 @@
 """Run one statement through the real LineageRunner and project table-level (and column-level) results."""
+from harness import REPO as _REPO
 import sys
 import warnings
 
-if "/repo" not in sys.path:
-    sys.path.insert(0, "/repo")
+if _REPO not in sys.path:
+    sys.path.insert(0, _REPO)
 _parsers = {}
 
 
